@@ -234,9 +234,11 @@ Proof.
 Qed.
 Lemma NoDup_snoc : forall (l : list key) k, NoDup l -> ~ In k l -> NoDup (l ++ [k]).
 Proof.
-  intros l k ND H. apply NoDup_rev in ND.
-  rewrite <- (rev_involutive (l ++ [k])), rev_app_distr. cbn [rev app].
-  apply NoDup_rev. constructor; [rewrite <- in_rev; assumption | assumption].
+  intros l k; induction l as [|x t IH]; cbn [app In]; intros ND H.
+  - constructor; [intros [] | constructor].
+  - inversion ND as [|? ? Hx ND']; subst. constructor.
+    + rewrite in_app_iff; cbn [In]; intros [C|[C|[]]]; [contradiction | subst; tauto].
+    + apply IH; tauto.
 Qed.
 Lemma NoDup_keys_upsert : forall d l, NoDup (keys l) -> NoDup (keys (upsert d l)).
 Proof.
@@ -254,7 +256,7 @@ Proof.
 Qed.
 Lemma In_remove_key_neq : forall k l e, NoDup (keys l) -> In e (remove_key k l) -> ekey e <> k.
 Proof.
-  intros k l e ND H C. assert (Hk : In k (keys (remove_key k l))) by (rewrite <- C; apply in_map; assumption).
+  intros k l e ND H C. subst k. assert (Hk : In (ekey e) (keys (remove_key (ekey e) l))) by (unfold keys; apply in_map; assumption).
   rewrite keys_remove_key in Hk by assumption. apply In_krem in Hk; tauto.
 Qed.
 
@@ -340,7 +342,7 @@ Section Refine.
       - (* already matched with identical data *)
         apply has_ep_In in Hep. pose proof (c_compat _ _ I d Hep) as Hc. rewrite Hc.
         assert (Hk : has_key (ekey d) (matched s) = true) by (apply has_key_In, in_map; assumption).
-        rewrite Kk, Hk. cbn [fst]. split; [|reflexivity]. split; [|exact P].
+        rewrite ?Kk, ?Hk. cbn [fst]. split; [|reflexivity]. split; [|exact P].
         constructor; try (cbn; first [apply (c_nd_m _ _ I) | apply (c_keys _ _ I) | apply (c_cur _ _ I) | apply (c_total _ _ I) | apply (c_total_ch _ _ I) | apply (c_cur_ch _ _ I) | apply (c_compat _ _ I)]; fail).
         + cbn. apply NoDup_keys_upsert; assumption.
         + cbn. intros e He Hce. destruct (ep_eqb e d) eqn:Eed; [apply ep_eqb_eq in Eed; subst; assumption|].
@@ -355,8 +357,8 @@ Section Refine.
           destruct (has_key (ekey d) (matched s)) eqn:Hk.
           * (* update of a matched endpoint: class 1 unless fixed *)
             assert (Hfx : fx = true).
-            { destruct A as [A|[A|[_ A]]]; [assumption | | ]; cbn [class_of] in A; rewrite Kk, Hk, Hc in A; discriminate. }
-            rewrite Hfx, Kk, Hk. cbn [andb fst]. apply has_key_In in Hk. split; [|reflexivity]. split.
+            { destruct A as [A|[A|[_ A]]]; [assumption | | ]; cbn [class_of] in A; rewrite ?Kk, ?Hk, ?Hc in A; discriminate. }
+            rewrite Hfx, ?Kk, ?Hk. cbn [andb fst]. apply has_key_In in Hk. split; [|reflexivity]. split.
             -- constructor; cbn.
                ++ apply NoDup_keys_upsert; assumption.
                ++ intros e He Hce. destruct (ep_eqb e d) eqn:Eed; [apply ep_eqb_eq in Eed; subst; apply In_upsert_self|].
@@ -374,7 +376,7 @@ Section Refine.
             -- intros Hwp; unfold InvP; cbn. rewrite keys_upsert_in by assumption.
                rewrite pkeys_upsert_in; [apply P; assumption|]. cbn [x_key]. rewrite (P Hwp); assumption.
           * (* a new match *)
-            rewrite Kk, Hk. rewrite andb_false_r. cbn [fst]. apply has_key_false in Hk. split; [|reflexivity]. split.
+            rewrite ?Kk, ?Hk. rewrite andb_false_r. cbn [fst]. apply has_key_false in Hk. split; [|reflexivity]. split.
             -- constructor; cbn.
                ++ apply NoDup_keys_upsert; assumption.
                ++ intros e He Hce. destruct (ep_eqb e d) eqn:Eed; [apply ep_eqb_eq in Eed; subst; apply In_upsert_self|].
@@ -395,8 +397,8 @@ Section Refine.
           destruct (has_key (ekey d) (matched s)) eqn:Hk.
           * (* a matched endpoint became incompatible: class 2 unless fixed *)
             assert (Hfx : fx = true).
-            { destruct A as [A|[A|[_ A]]]; [assumption | | ]; cbn [class_of] in A; rewrite Kk, Hk, Hc in A; discriminate. }
-            rewrite Hfx. unfold unmatch. rewrite Hm1, Hk, Hfx. cbn [fst]. apply has_key_In in Hk. split; [|reflexivity]. split.
+            { destruct A as [A|[A|[_ A]]]; [assumption | | ]; cbn [class_of] in A; rewrite ?Kk, ?Hk, ?Hc in A; discriminate. }
+            rewrite Hfx. unfold unmatch. rewrite Hm1, Hk. cbn [fst]. apply has_key_In in Hk. split; [|reflexivity]. split.
             -- constructor; cbn.
                ++ apply NoDup_keys_upsert; assumption.
                ++ intros e He Hce. assert (e <> d) by (intros ->; congruence).
@@ -426,4 +428,280 @@ Section Refine.
     rewrite fold_synced; [exact Main|].
     intros e He. eapply inv_synced; [exact (proj1 Main)|]. rewrite Ed, E. apply in_or_app; right; right; assumption.
   Qed.
+
+  (* ---------------------------------------------------------------- AGone *)
+  Lemma step_gone : forall wp s i k, Inv wp s i -> allowed wp i (AGone k) ->
+    Inv wp (proc (unmatch fx k (set_disc s (retain_not_key k (disc s))))) (fst (istep compat i (AGone k))).
+  Proof.
+    intros wp s i k [I P] A.
+    pose proof (c_nd_disc _ _ I) as NDd. pose proof (c_nd_m _ _ I) as NDm.
+    set (s1 := set_disc s (retain_not_key k (disc s))).
+    assert (Main : Inv wp (unmatch fx k s1) (fst (istep compat i (AGone k)))).
+    { unfold unmatch. change (matched s1) with (matched s). cbn [istep fst].
+      destruct (has_key k (matched s)) eqn:Hk.
+      - apply has_key_In in Hk. split.
+        + constructor; cbn.
+          * apply NoDup_keys_filter; assumption.
+          * intros e He Hce. unfold retain_not_key in He; apply filter_In in He. destruct He as [He Hne].
+            apply negb_true_iff, key_eqb_neq in Hne. apply In_remove_key_other; [assumption | apply (c_sync _ _ I); assumption].
+          * intros m Hm. pose proof (In_remove_key_neq _ _ _ NDm Hm) as Hne. apply In_remove_key in Hm.
+            unfold retain_not_key; apply filter_In; split; [apply (c_in_disc _ _ I); assumption|].
+            apply negb_true_iff, key_eqb_neq; assumption.
+          * intros m Hm. apply In_remove_key in Hm. apply (c_compat _ _ I); assumption.
+          * rewrite keys_remove_key by assumption. apply NoDup_filter; assumption.
+          * rewrite keys_remove_key by assumption. rewrite (c_keys _ _ I); reflexivity.
+          * reflexivity.
+          * rewrite (c_total _ _ I); lia.
+          * rewrite (c_total_ch _ _ I); lia.
+          * rewrite (c_cur_ch _ _ I), zlen_remove_key by assumption; lia.
+        + intros Hwp. assert (Hfx : fx = true).
+          { destruct A as [A|[A|[A _]]]; [assumption | | congruence]. cbn [class_of] in A.
+            rewrite <- (c_keys _ _ I), kmem_has_key in A. apply has_key_In in Hk. rewrite Hk in A; discriminate. }
+          rewrite Hfx. unfold InvP; cbn. apply pkeys_del_proxy; [apply P; assumption | assumption].
+      - apply has_key_false in Hk. split; [|exact P].
+        constructor; cbn; try (first [apply (c_nd_m _ _ I) | apply (c_cur _ _ I) | apply (c_total _ _ I) | apply (c_total_ch _ _ I) | apply (c_cur_ch _ _ I) | apply (c_compat _ _ I)]; fail).
+        + apply NoDup_keys_filter; assumption.
+        + intros e He Hce. unfold retain_not_key in He; apply filter_In in He. apply (c_sync _ _ I); tauto.
+        + intros m Hm. unfold retain_not_key; apply filter_In; split; [apply (c_in_disc _ _ I); assumption|].
+          apply negb_true_iff, key_eqb_neq. intros C; apply Hk; rewrite <- C; unfold keys; apply in_map; assumption.
+        + rewrite krem_notin; [apply (c_keys _ _ I) | rewrite <- (c_keys _ _ I); assumption]. }
+    rewrite (process_id _ _ (proj1 Main)). exact Main.
+  Qed.
+
+  (* ---------------------------------------------------------------- participant removal *)
+  Lemma del_proxies_prefix : forall p m px, map x_key px = keys m ->
+    map x_key (del_proxies_of p m px) = keys (retain_not_prefix p m).
+  Proof.
+    intros p m px H.
+    assert (E : del_proxies_of p m px = filter (fun x => negb (fst (x_key x) =? p)) px).
+    { unfold del_proxies_of. apply filter_ext_in. intros x Hx. f_equal.
+      assert (Hk : In (x_key x) (keys m)) by (rewrite <- H; apply in_map; assumption).
+      destruct (fst (x_key x) =? p) eqn:Ep.
+      - apply existsb_exists. unfold keys in Hk; apply in_map_iff in Hk. destruct Hk as [d [Ed Hd]].
+        exists d; split; [assumption|]. rewrite Ed, key_eqb_refl, andb_true_r.
+        rewrite <- Ed in Ep; exact Ep.
+      - destruct (existsb _ m) eqn:Ex; [|reflexivity]. apply existsb_exists in Ex.
+        destruct Ex as [d [Hd Ed]]. apply andb_true_iff in Ed. destruct Ed as [E1 E2].
+        apply key_eqb_eq in E2. rewrite <- E2 in Ep. cbn [ekey fst] in Ep. congruence. }
+    rewrite E. unfold keys, retain_not_prefix. apply (map_filter_parallel x_key ekey (fun k => negb (fst k =? p))). exact H.
+  Qed.
+
+  Lemma zlen_filter_le : forall {A} (f : A -> bool) l, zlen (filter f l) <= zlen l.
+  Proof.
+    intros A f l; unfold zlen; induction l as [|x t IH]; cbn [filter length]; [lia|].
+    destruct (f x); cbn [length]; lia.
+  Qed.
+
+  Lemma inv_remove_part : forall wp s i p, Inv wp s i ->
+    (fx = true \/ existsb (fun k => fst k =? p) (i_keys i) = false) ->
+    Inv wp (remove_part sd fx p s)
+       (mkIdeal (filter (fun k => negb (fst k =? p)) (i_keys i)) (i_total i) (i_rt i) (i_rc i)).
+  Proof.
+    intros wp s i p [I P] A.
+    pose proof (c_nd_disc _ _ I) as NDd. pose proof (c_nd_m _ _ I) as NDm.
+    unfold remove_part. cbn [parts disc matched prox total total_ch cur cur_ch set_parts].
+    destruct fx eqn:Hfx.
+    - split.
+      + constructor; cbn.
+        * apply NoDup_keys_filter; assumption.
+        * intros e He Hce. unfold retain_not_prefix in *; apply filter_In in He. apply filter_In; split; [apply (c_sync _ _ I); tauto | tauto].
+        * intros m Hm. unfold retain_not_prefix in *; apply filter_In in Hm. apply filter_In; split; [apply (c_in_disc _ _ I); tauto | tauto].
+        * intros m Hm. unfold retain_not_prefix in Hm; apply filter_In in Hm. apply (c_compat _ _ I); tauto.
+        * apply NoDup_keys_filter; assumption.
+        * rewrite keys_retain_prefix, (c_keys _ _ I); reflexivity.
+        * reflexivity.
+        * apply (c_total _ _ I).
+        * apply (c_total_ch _ _ I).
+        * rewrite (c_cur_ch _ _ I); lia.
+      + intros Hwp; unfold InvP; cbn. apply del_proxies_prefix. apply P; assumption.
+    - destruct A as [A|A]; [discriminate|].
+      assert (NoP : forall m, In m (matched s) -> (e_p m =? p) = false).
+      { intros m Hm. destruct (e_p m =? p) eqn:Ep; [|reflexivity].
+        assert (Hex : existsb (fun k => fst k =? p) (i_keys i) = true).
+        { apply existsb_exists. exists (ekey m). split; [rewrite <- (c_keys _ _ I); unfold keys; apply in_map; assumption | exact Ep]. }
+        congruence. }
+      assert (Em : retain_not_prefix p (matched s) = matched s).
+      { unfold retain_not_prefix; apply filter_all. intros m Hm. rewrite (NoP m Hm); reflexivity. }
+      assert (Ek : filter (fun k => negb (fst k =? p)) (i_keys i) = i_keys i).
+      { apply filter_all. intros k Hk. destruct (fst k =? p) eqn:Ep; [|reflexivity].
+        assert (existsb (fun k => fst k =? p) (i_keys i) = true) by (apply existsb_exists; exists k; tauto). congruence. }
+      assert (Ex : del_proxies_of p (matched s) (prox s) = prox s).
+      { unfold del_proxies_of; apply filter_all. intros x Hx. apply negb_true_iff.
+        destruct (existsb _ (matched s)) eqn:Eb; [|reflexivity]. apply existsb_exists in Eb.
+        destruct Eb as [d [Hd Ed]]. apply andb_true_iff in Ed. rewrite (NoP d Hd) in Ed. destruct Ed; discriminate. }
+      rewrite Ek, Ex. assert (Em' : match sd with Wr => retain_not_prefix p (matched s) | Rd => matched s end = matched s)
+        by (destruct sd; [exact Em | reflexivity]).
+      rewrite Em'. split; [|exact P].
+      constructor; cbn; first [apply (c_nd_disc _ _ I) | apply (c_sync _ _ I) | apply (c_in_disc _ _ I) | apply (c_nd_m _ _ I) | apply (c_keys _ _ I) | apply (c_cur _ _ I) | apply (c_total _ _ I) | apply (c_total_ch _ _ I) | apply (c_cur_ch _ _ I) | apply (c_compat _ _ I)].
+  Qed.
+
+  Lemma inv_set_parts : forall wp s i l, Inv wp s i -> Inv wp (set_parts s l) i.
+  Proof.
+    intros wp s i l [I P]; split; [|exact P].
+    constructor; cbn; first [apply (c_nd_disc _ _ I) | apply (c_sync _ _ I) | apply (c_in_disc _ _ I) | apply (c_nd_m _ _ I) | apply (c_keys _ _ I) | apply (c_cur _ _ I) | apply (c_total _ _ I) | apply (c_total_ch _ _ I) | apply (c_cur_ch _ _ I) | apply (c_compat _ _ I)].
+  Qed.
+
+  Lemma allowed_part : forall wp i p, allowed wp i (APartGone p) \/ allowed wp i (AStale p) ->
+    fx = true \/ existsb (fun k => fst k =? p) (i_keys i) = false.
+  Proof.
+    intros wp i p [A|A]; (destruct A as [A|[A|[_ A]]]; [left; assumption | right | right]);
+      cbn [class_of] in A; destruct (existsb (fun k : Z * Z => fst k =? p) (i_keys i)); try reflexivity; discriminate.
+  Qed.
+
+  (* ---------------------------------------------------------------- one step *)
+  Lemma step_refines : forall wp s i a, Inv wp s i -> allowed wp i a ->
+    Inv wp (fst (step sd fx compat s a)) (fst (istep compat i a)) /\
+    snd (step sd fx compat s a) = snd (istep compat i a).
+  Proof.
+    intros wp s i a I A. destruct a as [p|d|k|p|p| |].
+    - (* APart *) cbn [step istep fst snd]. split; [|reflexivity].
+      set (l := if existsb (Z.eqb p) (parts s) then parts s else parts s ++ [p]).
+      pose proof (inv_set_parts wp s i l I) as I1. rewrite (process_id _ _ (proj1 I1)). exact I1.
+    - (* ADisc *) cbn [step fst snd]. split; [apply step_disc; assumption|].
+      cbn [istep]. destruct (compat d); [destruct (kmem _ _)|]; reflexivity.
+    - (* AGone *) cbn [step fst snd]. split; [apply step_gone; assumption | reflexivity].
+    - (* APartGone *) cbn [step istep fst snd]. split; [|reflexivity].
+      pose proof (inv_remove_part wp s i p I (allowed_part wp i p (or_introl A))) as I1.
+      rewrite (process_id _ _ (proj1 I1)). exact I1.
+    - (* AStale *) cbn [step istep fst snd]. split; [|reflexivity].
+      rewrite (process_id _ _ (proj1 I)).
+      exact (inv_remove_part wp s i p I (allowed_part wp i p (or_intror A))).
+    - (* ATick *) cbn [step istep fst snd]. split; [|reflexivity]. rewrite (process_id _ _ (proj1 I)). exact I.
+    - (* ARead *) destruct I as [I P]. cbn [step read istep fst snd].
+      assert (I1 : Inv wp (mkSt (parts s) (disc s) (matched s) (prox s) (total s) 0 (cur s) 0)
+                         (mkIdeal (i_keys i) (i_total i) (i_total i) (zlen (i_keys i)))).
+      { split; [|exact P]. constructor; cbn; try first [apply (c_nd_disc _ _ I) | apply (c_sync _ _ I) | apply (c_in_disc _ _ I) | apply (c_nd_m _ _ I) | apply (c_keys _ _ I) | apply (c_cur _ _ I) | apply (c_total _ _ I) | apply (c_compat _ _ I)].
+        - lia.
+        - rewrite <- (c_keys _ _ I); unfold keys; rewrite zlen_map; lia. }
+      rewrite (process_id _ _ (proj1 I1)). split; [exact I1|].
+      rewrite (c_total _ _ I), (c_total_ch _ _ I), (c_cur _ _ I), (c_cur_ch _ _ I), <- (c_keys _ _ I); unfold keys; rewrite zlen_map. reflexivity.
+  Qed.
+
+  Lemma first_class_allowed : forall wp i a t,
+    fx = true \/ first_class compat wp i (a :: t) = 0%N ->
+    allowed wp i a /\ (fx = true \/ first_class compat wp (fst (istep compat i a)) t = 0%N).
+  Proof.
+    intros wp i a t [H|H]; [split; [left; assumption | left; assumption]|].
+    cbn [first_class] in H.
+    destruct (N.eqb (class_of compat i a) 0) eqn:E0; cbn [negb andb] in H.
+    - apply N.eqb_eq in E0. split; [right; left; assumption | right; assumption].
+    - destruct wp; cbn [orb] in H.
+      + rewrite H in E0; discriminate.
+      + destruct (N.eqb (class_of compat i a) 4) eqn:E4; cbn [negb] in H.
+        * apply N.eqb_eq in E4. split; [right; right; split; [reflexivity | assumption] | right; assumption].
+        * rewrite H in E0; discriminate.
+  Qed.
+
+  Theorem run_refines : forall wp l s i, Inv wp s i ->
+    (fx = true \/ first_class compat wp i l = 0%N) ->
+    Inv wp (fst (run sd fx compat s l)) (fst (irun compat i l)) /\
+    snd (run sd fx compat s l) = snd (irun compat i l).
+  Proof.
+    intros wp l; induction l as [|a t IH]; intros s i I H; cbn [run irun].
+    - split; [exact I | reflexivity].
+    - destruct (first_class_allowed wp i a t H) as [A H'].
+      destruct (step_refines wp s i a I A) as [I1 O1].
+      destruct (step sd fx compat s a) as [s1 o1] eqn:Es. destruct (istep compat i a) as [i1 o1'] eqn:Ei.
+      cbn [fst snd] in *. destruct (IH s1 i1 I1 H') as [I2 O2].
+      destruct (run sd fx compat s1 t) as [s2 os] eqn:Er. destruct (irun compat i1 t) as [i2 os'] eqn:Eir.
+      cbn [fst snd] in *. split; [exact I2|]. subst. reflexivity.
+  Qed.
+
+  Lemma inv0 : forall wp, Inv wp st0 ideal0.
+  Proof. intros wp; split; [constructor; cbn; try constructor; try tauto; try reflexivity | intros _; reflexivity]. Qed.
 End Refine.
+
+(* ------------------------------------------------------------------ the pinned statements *)
+Definition agrees (with_proxies : bool) (r : st * list status) (ir : ideal * list status) : Prop :=
+  snd r = snd ir /\
+  keys (matched (fst r)) = i_keys (fst ir) /\
+  cur (fst r) = zlen (matched (fst r)) /\
+  total (fst r) = i_total (fst ir) /\
+  NoDup (keys (matched (fst r))) /\
+  (with_proxies = true -> map x_key (prox (fst r)) = keys (matched (fst r))).
+
+Lemma agrees_of_inv : forall compat wp r ir,
+  Inv compat wp (fst r) (fst ir) -> snd r = snd ir -> agrees wp r ir.
+Proof.
+  intros compat wp r ir [I P] O. unfold agrees. repeat split; try assumption.
+  - apply (c_keys _ _ _ I).
+  - apply (c_cur _ _ _ I).
+  - apply (c_total _ _ _ I).
+  - apply (c_nd_m _ _ _ I).
+Qed.
+
+Theorem fixed_refines_spec : forall sd compat acts,
+  agrees true (run sd true compat st0 acts) (irun compat ideal0 acts).
+Proof.
+  intros sd compat acts.
+  destruct (run_refines sd true compat true acts st0 ideal0 (inv0 compat true) (or_introl eq_refl)) as [I O].
+  eapply agrees_of_inv; eauto.
+Qed.
+
+Theorem faithful_counts_outside_classes : forall sd compat acts,
+  first_class compat false ideal0 acts = 0%N ->
+  agrees false (run sd false compat st0 acts) (irun compat ideal0 acts).
+Proof.
+  intros sd compat acts H.
+  destruct (run_refines sd false compat false acts st0 ideal0 (inv0 compat false) (or_intror H)) as [I O].
+  eapply agrees_of_inv; eauto.
+Qed.
+
+Theorem faithful_proxies_outside_classes : forall sd compat acts,
+  first_class compat true ideal0 acts = 0%N ->
+  agrees true (run sd false compat st0 acts) (irun compat ideal0 acts).
+Proof.
+  intros sd compat acts H.
+  destruct (run_refines sd false compat true acts st0 ideal0 (inv0 compat true) (or_intror H)) as [I O].
+  eapply agrees_of_inv; eauto.
+Qed.
+
+(* ------------------------------------------------------------------ witnesses: each class
+   refutes the property on the faithful model (reader deadline >= 10 is compatible) *)
+Definition wcompat (d : ep) : bool := 10 <=? e_dl d.
+Definition w_r : ep := mkEp 1 7 0 20 0.
+
+Lemma class1_refuted : exists acts,
+  first_class wcompat false ideal0 acts = 1%N /\
+  snd (run Wr false wcompat st0 acts) <> snd (irun wcompat ideal0 acts) /\
+  snd (run Rd false wcompat st0 acts) <> snd (irun wcompat ideal0 acts).
+Proof.
+  exists [APart 1; ADisc w_r; ARead; ADisc (mkEp 1 7 0 20 5); ARead].
+  split; [vm_compute; reflexivity | split; vm_compute; intros H; discriminate].
+Qed.
+
+Lemma class2_refuted : exists acts,
+  first_class wcompat false ideal0 acts = 2%N /\
+  snd (run Wr false wcompat st0 acts) <> snd (irun wcompat ideal0 acts) /\
+  snd (run Rd false wcompat st0 acts) <> snd (irun wcompat ideal0 acts).
+Proof.
+  exists [APart 1; ADisc w_r; ARead; ADisc (mkEp 1 7 0 5 0); ARead].
+  split; [vm_compute; reflexivity | split; vm_compute; intros H; discriminate].
+Qed.
+
+Lemma class3_refuted : exists acts,
+  first_class wcompat false ideal0 acts = 3%N /\
+  snd (run Wr false wcompat st0 acts) <> snd (irun wcompat ideal0 acts) /\
+  snd (run Rd false wcompat st0 acts) <> snd (irun wcompat ideal0 acts).
+Proof.
+  exists [APart 1; ADisc w_r; ARead; AStale 1; ATick; ARead].
+  split; [vm_compute; reflexivity | split; vm_compute; intros H; discriminate].
+Qed.
+
+Lemma class4_refuted : exists acts,
+  first_class wcompat true ideal0 acts = 4%N /\
+  first_class wcompat false ideal0 acts = 0%N /\
+  map x_key (prox (fst (run Wr false wcompat st0 acts))) <> keys (matched (fst (run Wr false wcompat st0 acts))).
+Proof.
+  exists [APart 1; ADisc w_r; AGone (1, 7)].
+  split; [vm_compute; reflexivity | split; [vm_compute; reflexivity | vm_compute; intros H; discriminate]].
+Qed.
+
+(* non-vacuity: a clean history with two matches, one incompatible endpoint, a deletion and a
+   graceful departure is outside all classes and produces non-trivial statuses *)
+Example clean_history_nonvacuous :
+  let acts := [APart 1; APart 2; ADisc w_r; ADisc (mkEp 2 3 0 30 1); ADisc (mkEp 2 4 0 5 1); ARead;
+               AGone (2, 3); AGone (2, 4); APartGone 2; ARead] in
+  first_class wcompat false ideal0 acts = 0%N /\
+  snd (run Wr false wcompat st0 acts) = [(2, 2, 2, 2); (2, 0, 1, -1)].
+Proof. split; vm_compute; reflexivity. Qed.
